@@ -170,6 +170,7 @@ def mentionsAddS : Stmt → Bool
   | _ => false
 def mentionsAddL : List Stmt → Bool
   | [] => false
+  | .ret :: _ => false
   | s :: r => mentionsAddS s || mentionsAddL r
 end
 
@@ -286,6 +287,36 @@ theorem entry_tear (c : ApiCall) : lfEntry (Ctl.entry P c) = true := entry_fact 
 theorem entry_waitOpen (f : FinId) : (Ctl.entry P (.wait f)).waitOpen = true := by
   show (Ctl.entry P (.wait 0)).waitOpen = true
   decide
+
+/-! ### who can call the destination at all -/
+
+mutual
+def mentionsDestS : Stmt → Bool
+  | .callDest _ => true
+  | .tryLock _ a b | .ifLoadEq _ _ a b | .ifFld _ _ a b | .ifCas _ _ _ a b | .ifNil _ a b => mentionsDestL a || mentionsDestL b
+  | _ => false
+def mentionsDestL : List Stmt → Bool
+  | [] => false
+  | s :: r => mentionsDestS s || mentionsDestL r
+end
+
+/-- some frame still contains a call of the destination -/
+def Ctl.canDeliver (c : Ctl) : Bool := c.stack.any fun fr => mentionsDestL fr.body
+
+def lfDeliver (b : Bool) (c : Ctl) : Bool :=
+  (!(nextCtl P c b).canDeliver || c.canDeliver) && (!(c.inside || c.armed.isSome) || c.canDeliver)
+
+theorem lfDeliver_all (b : Bool) : reach.all (lfDeliver b) = true := by cases b <;> decide +kernel
+
+theorem entry_canDeliver (c : ApiCall) (h : (Ctl.entry P c).canDeliver = true) : c.produces = true := by
+  cases c with
+  | next v => rfl
+  | error e => rfl
+  | complete => rfl
+  | unsubscribe => exfalso; revert h; decide
+  | isClosed => exfalso; revert h; decide
+  | add f => exfalso; have : (Ctl.entry P (.add 0)).canDeliver = true := h; revert this; decide
+  | wait f => exfalso; have : (Ctl.entry P (.wait 0)).canDeliver = true := h; revert this; decide
 
 theorem entry_armed (c : ApiCall) : (Ctl.entry P c).armed = none := by
   have := entry_fact (Q := fun c => c.armed.isNone && !c.inside) (by decide) c
